@@ -289,13 +289,18 @@ pub(crate) fn generate(profile: &str, tier: &str, seed: u64) -> Scenario {
     } else {
         rng.range(1, 26) as u32
     };
-    let n_rollups = rng.range(1, 5) as u8;
+    // With kills the process rebuilds its blobs after a restart, and the order of the rollup blobs
+    // inside a BlobTx comes from `HashMap` iteration in `conversion.rs` (unseedable): two runs of
+    // one seed could then produce different tx hashes for the same submission. One rollup
+    // namespace keeps the blob order (metadata, rollup) fixed; multi-rollup content is covered by
+    // the profiles without restarts.
+    let n_rollups = if nokill { rng.range(1, 5) as u8 } else { 1 };
     let first_height = if rng.chance(7, 10) {
         1
     } else {
         rng.range(2, 100_000)
     };
-    let oversized = if nokill && rng.chance(1, 12) {
+    let oversized = if nokill && !whole_process && rng.chance(1, 12) {
         vec![first_height + rng.below(u64::from(n_blocks))]
     } else {
         vec![]
@@ -326,7 +331,10 @@ pub(crate) fn generate(profile: &str, tier: &str, seed: u64) -> Scenario {
     };
 
     let fam = Families {
-        lost: rng.chance(1, 2),
+        // a BlobTx that is acknowledged and then dropped by the node makes the relayer poll GetTx
+        // forever (no timeout in `CelestiaClient::try_submit`); only a restart gets it out, so the
+        // outcome is generated in the profiles with restarts only
+        lost: rng.chance(1, 2) && !nokill,
         resp_lost: rng.chance(3, 5),
         req_lost: rng.chance(1, 2),
         late: rng.chance(1, 2),
@@ -598,7 +606,7 @@ pub(crate) fn simplify(sc: &Scenario) -> Vec<Scenario> {
     }
     // an enumerating scenario: pin the enumeration to one index
     if sc.cfg.enum_kill && sc.cfg.enum_only_k.is_none() {
-        for k in 1..=400u32 {
+        for k in 1..=900u32 {
             let mut c = sc.clone();
             c.cfg.enum_only_k = Some(k);
             out.push(c);
